@@ -37,6 +37,10 @@ Public API
         .sup_box(elem, d)                                       polynomial part: sup |f| on the box |s_l| <= d_l
         .ops(), .negative_base()                                 classification of findings
     MVDomainError                                               x outside the certified domain
+    step_specs(method) / make_step(nd, spec, method, scale, base)   JSON step specifications -> step argument
+    generated_steps(obj, x) / fit_steps(build, x, limit, width, u)  steps of a configuration (the library's own
+                                        generator) and their construction inside the certified reach
+    kbucket(k_est)                                              k-bucket names of the C01 tolerance table
 
 Oracle
 ------
